@@ -134,6 +134,23 @@ def approved_only(f, site_block, apply_macro, apply_fn=("apply_master_ob", "safe
         if n.get("fn") in apply_fn and n.get("args") and facts.any_in_macro(n["args"][0], apply_macro):
             applies.append(b.id)
     if not applies:
+        # shape 3: the question is put by a file-local predicate - it makes the apply and returns MASTER_APPROVED(result)
+        # (or 0) on every path - and the site lies behind the true edge of a call of it
+        for b, i, n in f.calls():
+            h = f.unit.funcs.get(n.get("fn")) if getattr(f, "unit", None) is not None else None
+            h = getattr(h, "plain", h)
+            if h is None or not h.static:
+                continue
+            if not any(c.get("fn") in apply_fn and c.get("args") and facts.any_in_macro(c["args"][0], apply_macro) for b2, i2, c in h.calls()):
+                continue
+            rets = [e["e"] for b2, i2, e in h.elements() if e.get("k") == "Return" and "e" in e]
+            if not rets or not all(const_val(r) == 0 or any("MASTER_APPROVED" in (x.get("m") or ()) for x in walk(r)) for r in rets):
+                continue
+            for c, truth, B in guards(f, site_block):
+                e, t = normalize_cond(c, truth)
+                e = strip(e)
+                if t and e.get("k") == "Call" and e.get("fn") == h.name:
+                    return True, "behind the true edge of %s(), which asks the master (%s) and answers MASTER_APPROVED(result)" % (h.name, apply_macro)
         return False, "no %s apply in %s" % (apply_macro, f.name)
     p = f.reach_avoiding([f.entry], lambda blk: blk.id == site_block, avoid_blocks=applies)
     if p is not None and site_block not in applies:
